@@ -266,7 +266,11 @@ impl AdvancePositions {
         let num_opens = positions.len();
 
         // Build IB: set bit at each unique position
-        let ib_num_words = text_len.div_ceil(64);
+        // A node can start at `text_len` itself (an empty value at end of input),
+        // so allocate one bit beyond the text, as `CompactEndPositions` does.
+        // Without it that start was silently dropped whenever `text_len` is a
+        // multiple of 64.
+        let ib_num_words = (text_len + 1).div_ceil(64);
         let mut ib_words = vec![0u64; ib_num_words];
 
         // Build advance bitmap: set bit when position changes
